@@ -287,5 +287,9 @@ func (c *Collector) evictStale() {
 			keys = append(keys, key)
 		}
 	}
+	// only the stale counters were halved: restore the descending order.
+	sort.SliceStable(keys, func(i, j int) bool {
+		return keys[i].Counter.Value() > keys[j].Counter.Value()
+	})
 	c.keys = keys
 }
